@@ -12,7 +12,7 @@ import re
 import subprocess
 import time
 
-from .common import (REPO, VERIF, base_env, log, new_scratch, rm_scratch)
+from .common import (CACHE, REPO, VERIF, base_env, log, new_scratch, rm_scratch)
 
 KANI_FEATURES = {
     "toktrie": [],
@@ -39,7 +39,7 @@ class Overlay:
         dst_name = "verif_%s_%s.rs" % (os.path.basename(src)[:-3], modname)
         dst = os.path.join(os.path.dirname(src), dst_name)
         with open(harness_file) as f:
-            body = f.read()
+            body = expand_inst(f.read())
         with open(dst, "w") as f:
             f.write(body)
         with open(src, "a") as f:
@@ -56,6 +56,19 @@ class Overlay:
 
     def cleanup(self):
         rm_scratch(self.dir)
+
+
+def expand_inst(body):
+    """`inst!(name, func, unwind, g1, g2, ..);` lines are expanded textually into explicit harness functions (Kani's concrete
+    playback writes its unit test next to the harness item, which does not work for items produced by macro_rules)."""
+    body = re.sub(r"macro_rules! inst \{.*?\n\}\n", "", body, flags=re.S)
+
+    def rep(m):
+        args = [a.strip() for a in m.group(1).split(",")]
+        name, func, unwind, gens = args[0], args[1], args[2], args[3:]
+        g = "::<%s>" % ", ".join(gens) if gens else ""
+        return "#[kani::proof]\n#[kani::unwind(%s)]\nfn %s() {\n    %s%s();\n}\n" % (unwind, name, func, g)
+    return re.sub(r"^inst!\((.*?)\);\s*$", rep, body, flags=re.M)
 
 
 class HarnessResult:
@@ -187,11 +200,14 @@ def playback(overlay, package, harness, release_too=False):
     out = {}
     ok_any = False
     for prof in (["dev"] + (["release"] if release_too else [])):
-        cmd2 = ["cargo", "kani", "playback", "-p", package, "-Z", "concrete-playback"] + KANI_FEATURES.get(package, [])
+        cmd2 = ["cargo", "kani", "playback", "-p", package, "--lib", "-Z", "concrete-playback"] + KANI_FEATURES.get(package, [])
         if prof == "release":
             cmd2 += ["--release"]
         cmd2 += ["--", test_names[0]]
-        p2 = subprocess.run(cmd2, cwd=overlay.dir, env=env, capture_output=True, text=True)
+        env2 = dict(env)
+        # dependency builds of the playback unit test are shared between runs (the overlay's own crates are rebuilt)
+        env2["CARGO_TARGET_DIR"] = os.path.join(CACHE, "playback-target")
+        p2 = subprocess.run(cmd2, cwd=overlay.dir, env=env2, capture_output=True, text=True)
         txt = p2.stdout + p2.stderr
         failed = bool(re.search(r"test result: FAILED", txt))
         passed = bool(re.search(r"test result: ok\. 1 passed", txt))
